@@ -29,4 +29,5 @@ MUTANTS = [
     {'id': 'c14-failsafe-eof-before-decode-again', 'props': ['C14'], 'expect': 'fire', 'keys': ['eof-before-decode'],
      'edits': [(COMP, "                                // Inside a stream and no more data available: the\n                                // decoder may still hold already decoded bytes\n                                inner_eof = true;\n", "                                return Err(io::Error::new(\n                                    io::ErrorKind::UnexpectedEof,\n                                    \"No more data from the inner layer\",\n                                ));\n")]},
     {'id': 'c14-benign-eof-check-first-but-guarded', 'props': ['C14', 'C13', 'C02'], 'expect': 'silent', 'patch': 'patches/c14-eof-check-first-but-guarded.diff'},
+    {'id': 'c14-handle-helper-flush-dropped', 'props': ['C14'], 'expect': 'fire', 'keys': ['mla_archive_flush|flush-forwarded'], 'patch': 'patches/c14-handle-helper-flush-dropped.diff'},
 ]
